@@ -157,12 +157,30 @@ func deathDetail(stderr string) string {
 }
 
 // run executes all calls and returns one outcome per call (index = position in calls).
-func (s *sweeper) run(calls []call) ([]outcome, error) {
-	for i := range calls {
-		calls[i].ID = i
+// The calls are dealt round-robin to the batches so that slow calls (blocked pipelines, process
+// deaths, benchmark) spread over the workers instead of forming a tail in one batch.
+func (s *sweeper) run(orig []call) ([]outcome, error) {
+	n := len(orig)
+	nb := (n + s.batch - 1) / s.batch
+	if nb == 0 {
+		return nil, nil
 	}
-	outs := make([]outcome, len(calls))
-	have := make([]bool, len(calls))
+	calls := make([]call, 0, n) // permuted; ID = index in orig
+	pos := make([]int, n)       // position in calls of the call with a given ID
+	type span struct{ from, to int }
+	var spans []span
+	for b := 0; b < nb; b++ {
+		from := len(calls)
+		for i := b; i < n; i += nb {
+			c := orig[i]
+			c.ID = i
+			pos[i] = len(calls)
+			calls = append(calls, c)
+		}
+		spans = append(spans, span{from, len(calls)})
+	}
+	outs := make([]outcome, n)
+	have := make([]bool, n)
 	var mu sync.Mutex
 	var firstErr error
 	setErr := func(e error) {
@@ -171,15 +189,6 @@ func (s *sweeper) run(calls []call) ([]outcome, error) {
 			firstErr = e
 		}
 		mu.Unlock()
-	}
-	type span struct{ from, to int }
-	var spans []span
-	for i := 0; i < len(calls); i += s.batch {
-		j := i + s.batch
-		if j > len(calls) {
-			j = len(calls)
-		}
-		spans = append(spans, span{i, j})
 	}
 	lib.Parallel(len(spans), s.workers, func(k int) {
 		from, to := spans[k].from, spans[k].to
@@ -204,9 +213,9 @@ func (s *sweeper) run(calls []call) ([]outcome, error) {
 				return
 			}
 			if pending >= 0 {
-				// the child died during call `pending`: re-run it alone to attribute the crash
+				// the child died during the call with ID `pending`: re-run it alone to attribute the crash
 				s.nDied.Add(1)
-				o, err := s.attribute(calls, pending, stderr)
+				o, err := s.attribute(calls, pos[pending], stderr)
 				if err != nil {
 					setErr(err)
 					return
@@ -214,14 +223,14 @@ func (s *sweeper) run(calls []call) ([]outcome, error) {
 				mu.Lock()
 				outs[pending], have[pending] = o, true
 				mu.Unlock()
-				from = pending + 1
+				from = pos[pending] + 1
 				continue
 			}
 			// the child asked for a restart after a blocked / live call (it reported the outcome)
 			last := from - 1
 			for _, o := range os2 {
-				if o.ID > last {
-					last = o.ID
+				if pos[o.ID] > last {
+					last = pos[o.ID]
 				}
 			}
 			if last < from {
@@ -236,16 +245,17 @@ func (s *sweeper) run(calls []call) ([]outcome, error) {
 	}
 	for i := range have {
 		if !have[i] {
-			return nil, lib.Infra("no outcome recorded for call %d (%s)", i, calls[i].Code)
+			return nil, lib.Infra("no outcome recorded for call %d (%s)", i, orig[i].Code)
 		}
 	}
 	return outs, nil
 }
 
 // attribute re-runs one call alone in a fresh child (up to 3 times).
-func (s *sweeper) attribute(calls []call, id int, firstStderr string) (outcome, error) {
+func (s *sweeper) attribute(calls []call, p int, firstStderr string) (outcome, error) {
+	id := calls[p].ID
 	for try := 0; try < 3; try++ {
-		os2, pending, _, stderr, err := s.childRun(calls, id, id+1)
+		os2, pending, _, stderr, err := s.childRun(calls, p, p+1)
 		if err != nil {
 			return outcome{}, err
 		}
